@@ -30,6 +30,7 @@ META = {
 }
 
 PKG = 'github.com/tencent/goom/internal/unexports2'
+API_PKG = 'github.com/tencent/goom'
 AF, AV = PKG + '.FindFuncByName', PKG + '.stubVar'
 M64 = (1 << 64) - 1
 WORK = os.path.join(C.BUILD, 'c10')
@@ -38,7 +39,7 @@ WORK = os.path.join(C.BUILD, 'c10')
 def esc(b):
     if isinstance(b, str):
         b = b.encode()
-    return ''.join(chr(c) if 0x21 <= c <= 0x7e and c not in (0x25, 0x40) else '%%%02x' % c for c in b)
+    return ''.join(chr(c) if 0x21 <= c <= 0x7e and c not in (0x25, 0x40, 0x7c) else '%%%02x' % c for c in b)
 
 
 # ------------------------------------------------------------------ generated companion (variables, functions, methods …)
@@ -51,10 +52,11 @@ VAR_KINDS = [
 ]
 
 
-def gen_companion(path, nv, nf, seed_):
+def gen_companion(path, nv, nf, seed_, pkgname='unexports2', PKG=None):
     """Writes the companion test file; returns the names it registers (probe registries give the direct truth)."""
+    PKG = PKG or globals()['PKG']
     rng = C.Rng(seed_).fork('companion')
-    L = ['//go:build go1.18', '', 'package unexports2', '', 'import (', '\t"reflect"', '\t"unsafe"', ')', '']
+    L = ['//go:build go1.18', '', 'package ' + pkgname, '', 'import (', '\t"reflect"', '\t"unsafe"', ')', '']
     vars_, funcs, others = [], [], []
     for i in range(nv):
         kind, tpl = VAR_KINDS[i % len(VAR_KINDS)]
@@ -112,10 +114,10 @@ def link_modes(tier):
     return modes
 
 
-def build(mode, companion):
-    tag = 'c10-' + mode['name']
-    pdir = os.path.join(C.REPO, 'internal/unexports2')
-    repl = {os.path.join(pdir, 'zz_verif_c10_test.go'): os.path.join(C.HARNESS, 'c10', 'sym_probe_test.go'),
+def build(mode, companion, api=False):
+    tag = ('c10api-' if api else 'c10-') + mode['name']
+    pdir = C.REPO if api else os.path.join(C.REPO, 'internal/unexports2')
+    repl = {os.path.join(pdir, 'zz_verif_c10_test.go'): os.path.join(C.HARNESS, 'c10', 'api_probe_test.go' if api else 'sym_probe_test.go'),
             os.path.join(pdir, 'zz_verif_c10gen_test.go'): companion}
     for vdir, fmap in C.helper_pkgs().items():
         for vname, real in fmap.items():
@@ -128,7 +130,7 @@ def build(mode, companion):
     cmd = ['go', 'test', '-c', '-o', out, '-overlay', ov, '-vet=off']
     if mode.get('gcflags', 'all=-l'):
         cmd.append('-gcflags=' + mode.get('gcflags', 'all=-l'))
-    cmd += mode['args'] + ['./internal/unexports2']
+    cmd += mode['args'] + ['.' if api else './internal/unexports2']
     rc, o, e = C.sh(cmd, cwd=C.REPO, env=C.goenv(), timeout=1800)
     if rc != 0 or not os.path.exists(out):
         raise C.Infra(f'probe for link mode {mode["name"]} does not build against the current tree:\n{(o + e)[-3000:]}')
@@ -267,6 +269,67 @@ def make_queries(desc, comp, rng, full, nmiss):
     return q
 
 
+def api_split(n):
+    """pclntab name -> public-API query (form, pieces) that goom recomposes to exactly n, or None"""
+    if any(c in n for c in b'[| ') or not n:
+        return None
+    dot = n.find(b'.', n.rfind(b'/') + 1)
+    if dot < 0:
+        return None
+    pkg, rest = n[:dot], n[dot + 1:]
+    if not rest:
+        return None
+    if rest.startswith(b'(*') and b').' in rest:
+        ty, meth = rest[1:rest.index(b')')], rest[rest.index(b').') + 2:]
+        return 'M', [pkg, ty, meth]
+    return 'F', [pkg, rest]
+
+
+def api_name(q):
+    """(model kind, escaped full name) a public-API query token stands for"""
+    parts = q[2:].split('|')
+    if q[0] == 'V':
+        return 'v', parts[0]
+    if q[0] == 'F':
+        return 'f', parts[0] + '.' + parts[1]
+    recv = '(' + parts[1] + ')' if '*' in parts[1] else parts[1]
+    return 'f', parts[0] + '.' + recv + '.' + parts[2]
+
+
+def make_api_queries(desc, comp, rng, nfun, nmiss):
+    fn = [n for n, _ in (desc['pcln'] if isinstance(desc['pcln'], list) else [])]
+    sy = [n for n, _ in (desc['syms'] or [])]
+    gen_f = [x.encode() for x in comp['funcs'] + comp['methods']]
+    gen_v = [x.encode() for x in comp['vars']]
+    q = []
+
+    def add(n, tag):
+        sp = api_split(n)
+        if sp:
+            q.append((sp[0] + ':' + '|'.join(esc(p) for p in sp[1]), tag))
+            if sp[0] == 'F' and sp[1][1].count(b'.') == 1 and rng.below(2):   # pkg.T.m can also be asked as a method of T
+                t, m = sp[1][1].split(b'.')
+                q.append(('M:' + '|'.join(esc(p) for p in (sp[1][0], t, m)), tag + '-as-method'))
+    for n in ([fn[rng.below(len(fn))] for _ in range(nfun)] if fn else []) + gen_f + [AF.encode()]:
+        add(n, 'func')
+    for n in ([sy[rng.below(len(sy))] for _ in range(nfun // 2)] if sy else []) + gen_v + [AV.encode()]:
+        if b'|' not in n:
+            q.append(('V:' + esc(n), 'sym'))
+    base = (fn or gen_f) + gen_f + gen_v
+    for _ in range(nmiss):
+        kind, m = near_miss(base[rng.below(len(base))], rng)
+        if rng.below(3) == 0 and b'|' not in m:
+            q.append(('V:' + esc(m), 'miss-' + kind))
+        else:
+            add(m, 'miss-' + kind)
+    q += [('F:' + esc(API_PKG) + '|', 'empty-name'), ('V:', 'miss-empty'), ('M:' + esc(API_PKG) + '|*zzT3|Get3', 'miss-receiver-kind'),
+          ('M:' + esc(API_PKG) + '|zzT3|set3', 'miss-receiver-kind'), ('F:|x', 'miss-nopkg')]
+    for i in range(len(q) - 1, 0, -1):
+        j = rng.below(i + 1)
+        q[i], q[j] = q[j], q[i]
+    return q
+
+
 # ------------------------------------------------------------------ running
 
 def run_binary(binary, test, ops_line, tag):
@@ -292,7 +355,12 @@ def facts_of(binary, tag):
 
 def oracle(case, q, obs, rt):
     """The property on what the real process did for one query.  Returns None or the complaint."""
-    kind, name = q[0], q[2:]
+    if q[0] in 'FMV':
+        if q[0] == 'F' and q.endswith('|'):
+            return None if obs == 'panic:empty-name' else f'ExportFunc("") must be refused, got {obs}'
+        kind, name = api_name(q)
+    else:
+        kind, name = q[0], q[2:]
     d = case['desc']
     readable = d.get('elf', True) and d['text'] is not None and d['pcln'] not in (None, 'bad')
     if obs is None:
@@ -335,7 +403,7 @@ def run_case(case, exe):
     """Runs one history in the real process and the model; fills case['impl'], case['rt'], case['model']."""
     toks = ['c10.hist', case['id']] + describe_tokens(case['desc'], case['facts']) + [f'q={len(case["queries"])}'] + [q for q, _ in case['queries']]
     line = ' '.join(toks)
-    rc, log, obs, rt = run_binary(case['binary'], 'TestVerifC10', line, case['id'])
+    rc, log, obs, rt = run_binary(case['binary'], case.get('test', 'TestVerifC10'), line, case['id'])
     n = len(case['queries'])
     case['impl'] = obs.split(' ') if obs else [None] * n
     case['rt'] = rt.split(' ') if rt else ['-'] * n
@@ -391,6 +459,27 @@ def prepare(tier, rng, comp_spec, only=None):
     return cases, comp
 
 
+def prepare_api(tier, seed_, only=None):
+    """The public-API lane: goom's root package with the API probe, as linked, in a subset of the link modes."""
+    os.makedirs(WORK, exist_ok=True)
+    path = os.path.join(WORK, 'zz_apigen_test.go')
+    comp = gen_companion(path, 56, 60, seed_, pkgname='mocker', PKG=API_PKG)
+    want = ('sym', 'ext', 'pie') if tier == 'quick' else ('sym', 'ext', 'pie', 'strip', 'pie-ext')
+    cases = []
+    for mode in link_modes('thorough'):
+        if mode['name'] != only if only else mode['name'] not in want:
+            continue
+        binary = build(mode, path, api=True)
+        desc = c10elf.describe_bytes(open(binary, 'rb').read())
+        facts = facts_of(binary, 'c10api-' + mode['name'])
+        facts['mv'] = next((v for n, v in (desc['syms'] or []) if n == AV.encode()), 0)   # not relocated: memory address = symbol value
+        fn, sn = tables_of(desc)
+        cases.append({'fnames_raw': [n for n, _ in (desc['pcln'] if isinstance(desc['pcln'], list) else [])], 'id': 'api.' + mode['name'],
+                      'mode': mode, 'variant': 'as-linked', 'spec': {}, 'binary': binary, 'desc': desc, 'vbias': 0, 'fnames': fn, 'snames': sn,
+                      'facts': facts, 'comp': comp, 'test': 'TestVerifC10Api', 'api': True})
+    return cases
+
+
 def run(tier):
     out = C.Outcome('C10', tier)
     rng = C.Rng(C.seed()).fork('C10')
@@ -416,6 +505,12 @@ def run(tier):
             h2['queries'] = [('x:' + esc(n), 'expose-first') for n in pick] + [('f:' + esc(n), 'func') for n in pick] + \
                             [('x:' + esc(n), 'expose') for n in pick] + [('v:' + esc(AV.encode()), 'sym')]
             hist.append(h2)
+    for case in prepare_api(tier, C.seed()):
+        cases.append(case)
+        h = dict(case)
+        h['queries'] = make_api_queries(case['desc'], case['comp'], rng.fork('q-' + case['id']), 600 if tier == 'quick' else 6000,
+                                        300 if tier == 'quick' else 3000)
+        hist.append(h)
     stats = {}
     total = nontriv = agreed = 0
     distinct = set()
@@ -499,7 +594,7 @@ def run(tier):
 
 
 def replay_body(case, comp_spec, queries, i, why):
-    return {'kind': 'impl-oracle', 'mode': case['mode']['name'], 'variant': case['variant'], 'variant_spec': case['spec'], 'companion': comp_spec, 'queries': queries,
+    return {'kind': 'impl-oracle', 'mode': case['mode']['name'], 'variant': case['variant'], 'variant_spec': case['spec'], 'api': bool(case.get('api')), 'companion': comp_spec, 'queries': queries,
             'observed': case['impl'][i] if i >= 0 else None, 'runtime_says': case['rt'][i] if i >= 0 else None,
             'model': (case['model'][i] if case['model'] and i >= 0 else None), 'why': why,
             'build_args': case['mode']['args'], 'how': 'python3 check.py C10 --replay <this file>   (rebuilds that link mode, re-derives the variant, runs the queries in a fresh process)'}
@@ -512,7 +607,10 @@ def replay(body):
         return 0 if p['ok'] else 1
     rng = C.Rng(body.get('seed', C.seed())).fork('C10')
     exe, _ = C.build_driver()
-    cases, comp = prepare('thorough', rng, body['companion'], only=(body['mode'], body['variant'], body.get('variant_spec', {})))
+    if body.get('api'):
+        cases = prepare_api('thorough', body.get('seed', C.seed()), only=body['mode'])
+    else:
+        cases, comp = prepare('thorough', rng, body['companion'], only=(body['mode'], body['variant'], body.get('variant_spec', {})))
     if not cases:
         print('no such mode/variant')
         return 2
